@@ -1,1 +1,219 @@
--- property theorems for C04 (stub)
+import RP.Lemmas.Showdown
+/-! # C04 — Showdown pays every main and side pot to the best eligible hand
+
+Model: `RP.Showdown.settle` (`lean/RP/Model/Showdown.lean`, mirrors `src/gameplay/showdown.rs`).
+Specification: `RP.Pots` (`lean/RP/Spec/Pots.lean`): commitment levels, layers, eligible seats,
+layer winners, floor/ceil shares, cap.
+
+Hypotheses (`RP.Pots.ValidLedger`), exactly the property's: the ledger is fresh (no reward
+yet), commitments are non-negative, some contesting seat holds the largest commitment of the
+table (so every all-in seat is in for at most that and no folded seat has committed more) and
+every contesting seat that is not all-in has matched it.
+
+All theorems are for every ledger of any length, any commitments and any strengths. -/
+namespace RP.C04
+open RP.Showdown RP.Pots RP.C04L
+
+/-- termination and adequacy of the model's fuel, for EVERY ledger (also outside the property's
+    hypotheses): the final state of the model is the result of the two `while let` loops
+    (`OuterRun`/`InnerRun` are their fuel-free big-step semantics). `best` strictly decreases over
+    the strengths present, `distributing` strictly increases over the commitments present. -/
+theorem C04_terminates (l : List Entry) : OuterRun (init l) (run l) := by
+  apply outer_run
+  have := List.length_filter_le (fun s : Seat => live s && below (init l).best s.strength)
+    (seats (init l).payouts)
+  have e : (seats (init l).payouts).length = l.length := by simp [seats, init]
+  omega
+
+/-- the engine does not touch commitments, states or strengths, nor the number of seats -/
+theorem C04_seats_preserved {l : List Entry} (hl : ValidLedger l) : seats (settle l) = seats l :=
+  (run_spec hl).1.seats_eq
+
+/-- every commitment is covered when the loop ends (the loops did not run out of fuel: the
+    engine left through `is_complete` or because no strength level was left) -/
+theorem C04_all_layers_paid {l : List Entry} (hl : ValidLedger l) :
+    ∀ p ∈ l, p.risked ≤ (run l).distributing := by
+  intro p hp
+  exact (run_spec hl).2 (seat p) (mem_seats hp)
+
+/-- ① pays out exactly the chips that were put in -/
+theorem C04_conservation {l : List Entry} (hl : ValidLedger l) :
+    sumInt ((settle l).map (·.reward)) = sumInt (l.map (·.risked)) := by
+  have ⟨hI, hall⟩ := run_spec hl
+  have ht := hI.total
+  have e : sumInt (l.map (·.risked)) = sumInt ((seats l).map (·.risked)) :=
+    sum_over_seats l (·.risked)
+  rw [e]
+  show sumInt ((run l).payouts.map (·.reward)) = _
+  rw [ht]
+  unfold potSum
+  apply sumInt_map_congr
+  intro s hs
+  have h1 := hall s hs
+  have h2 := hl.2.1 s hs
+  omega
+
+/-- ① pays nothing to folded players -/
+theorem C04_folded_zero {l : List Entry} (hl : ValidLedger l) :
+    ∀ q ∈ settle l, q.status = Status.folding → q.reward = 0 := by
+  intro q hq hf
+  have hg := (run_spec hl).1.each q hq
+  exact hg.folded (by simp [live, seat, hf])
+
+/-- ① each layer goes to the strongest contesting hand that paid into it, split equally with
+    only whole odd chips left over: a seat receives at least the sum of the floor shares and at
+    most the sum of the ceiling shares of the layers it wins (robust to the engine merging
+    adjacent layers with the same winner set) -/
+theorem C04_share_bounds {l : List Entry} (hl : ValidLedger l) :
+    ∀ q ∈ settle l, lower (seats l) (seat q) ≤ q.reward ∧ q.reward ≤ upper (seats l) (seat q) := by
+  intro q hq
+  have ⟨hI, hall⟩ := run_spec hl
+  have hg := hI.each q hq
+  have h1 := hg.lo
+  have h2 := hg.hi
+  rw [lowerTo_final _ hall] at h1
+  rw [upperTo_final _ hall] at h2
+  exact ⟨h1, h2⟩
+
+/-- ① a seat that is paid anything is a winner of some layer (eligible: contesting and paid into
+    the layer; no eligible seat is stronger) -/
+theorem C04_paid_only_to_layer_winner {l : List Entry} (hl : ValidLedger l) :
+    ∀ q ∈ settle l, 0 < q.reward →
+      ∃ ab ∈ layers (seats l), wins (seats l) ab.2 (seat q) = true := by
+  intro q hq hpos
+  apply Classical.byContradiction
+  intro hno
+  have h2 := (C04_share_bounds hl q hq).2
+  have : upper (seats l) (seat q) = 0 := by
+    rw [upper_eq, sumInt_map_congr _ (fun _ => (0 : Int)) (layers (seats l))]
+    · exact sumInt_map_zero _
+    · intro ab hab
+      have : wins (seats l) ab.2 (seat q) = false := by
+        cases h : wins (seats l) ab.2 (seat q) with
+        | false => rfl
+        | true => exact absurd ⟨ab, hab, h⟩ hno
+      simp [ceilTerm, this]
+  omega
+
+/-- ① never pays a player more than the others' contributions up to his own commitment allow -/
+theorem C04_cap {l : List Entry} (hl : ValidLedger l) :
+    ∀ q ∈ settle l, q.reward ≤ cap (seats l) (seat q) := by
+  intro q hq
+  have ⟨hI, hall⟩ := run_spec hl
+  have hg := (hI.each q hq).cap
+  have hqs : seat q ∈ seats l := by
+    have := mem_seats hq
+    rw [show seats (settle l) = seats l from hI.seats_eq] at this
+    exact this
+  have hle := hall (seat q) hqs
+  simp only [seat] at hle
+  have e : min q.risked (run l).distributing = q.risked := by omega
+  rw [e] at hg
+  have : potSum (seats l) 0 q.risked = cap (seats l) (seat q) := by
+    unfold potSum cap
+    apply sumInt_map_congr
+    intro s hs
+    have := hl.2.1 s hs
+    simp only [seat]; omega
+  omega
+
+/-- rewards are never negative -/
+theorem C04_reward_nonneg {l : List Entry} (hl : ValidLedger l) : ∀ q ∈ settle l, 0 ≤ q.reward := by
+  intro q hq
+  have h1 := (C04_share_bounds hl q hq).1
+  have : 0 ≤ lower (seats l) (seat q) := by
+    rw [lower_eq]
+    have := sumInt_map_le (fun _ => (0 : Int)) (floorTerm (seats l) (seat q)) (layers (seats l)) (by
+      rintro ⟨a, b⟩ hab
+      show 0 ≤ floorTerm (seats l) (seat q) (a, b)
+      unfold floorTerm floorDiv
+      split
+      · rw [pot_eq_potSum _ hab]
+        have ⟨h1, _, _, _⟩ := layer_facts (chain_levels (seats l)) hab
+        exact Int.ediv_nonneg (potSum_nonneg _ (by omega)) (by omega)
+      · exact Int.le_refl _)
+    rw [sumInt_map_zero] at this
+    exact this
+  omega
+
+/-- ② the exact payout: cut the pot at the commitment levels, merge adjacent layers with the same
+    winner set; every merged layer pays `⌊chips / n⌋` to each of its `n` winners and one more chip
+    to the first `chips mod n` winners in seat order (`RP.Pots.payout`) -/
+theorem C04_exact_merged_layers {l : List Entry} (hl : ValidLedger l) :
+    rewards l = payout (seats l) := by
+  have ⟨hI, hall⟩ := run_spec hl
+  have hx := hI.exact
+  have e1 : after (run l).distributing (layers (seats l)) = [] := by
+    apply List.filter_eq_nil_iff.2
+    intro ab hab
+    have := layer_top_le (seats l) hall hab
+    simp; omega
+  have hlen : ((run l).payouts.map (·.reward)).length = (seats l).length := by
+    have := congrArg List.length hI.seats_eq
+    simpa [seats] using this
+  rw [e1] at hx
+  have e2 : payoutOf (seats l) [] = (seats l).map (fun _ => (0 : Int)) := rfl
+  rw [e2, addVec_zeros_right (seats l) _ hlen] at hx
+  exact hx
+
+/-! ### the specification is the intended one (sanity of `levels`, `floorDiv`, `ceilDiv`) -/
+
+/-- the levels are exactly the positive commitments … -/
+theorem levels_mem (ss : List Seat) (y : Int) : y ∈ levels ss ↔ 0 < y ∧ ∃ s ∈ ss, s.risked = y :=
+  mem_levels
+
+/-- … in strictly increasing order starting above 0 -/
+theorem levels_increasing (ss : List Seat) : Chain 0 (levels ss) := chain_levels ss
+
+/-- `floorDiv`/`ceilDiv` are the floor and the ceiling of the quotient -/
+theorem floor_ceil_spec (x : Int) (n : Nat) (hn : 0 < n) :
+    floorDiv x n * n ≤ x ∧ x < (floorDiv x n + 1) * n ∧
+    x ≤ ceilDiv x n * n ∧ (ceilDiv x n - 1) * n < x := by
+  have hn' : (0 : Int) < n := by omega
+  have hne : (n : Int) ≠ 0 := by omega
+  unfold floorDiv ceilDiv
+  have h1 := Int.ediv_mul_le x hne
+  have h2 := Int.lt_ediv_add_one_mul_self x hn'
+  have h3 := Int.ediv_mul_le (-x) hne
+  have h4 := Int.lt_ediv_add_one_mul_self (-x) hn'
+  refine ⟨h1, h2, ?_, ?_⟩
+  · rw [Int.neg_mul]; omega
+  · rw [Int.sub_mul, Int.neg_mul]; rw [Int.add_mul] at h4; omega
+
+/-! ### non-vacuity: concrete ledgers inside the hypotheses -/
+
+/-- three levels, an odd chip, a folded seat with money between two all-in levels -/
+def ex1 : List Entry :=
+  [Entry.mk0 3 .shoving 9, Entry.mk0 4 .betting 3, Entry.mk0 4 .betting 3, Entry.mk0 2 .folding 10,
+   Entry.mk0 1 .shoving 9]
+
+example : ValidLedger ex1 := by decide
+example : rewards ex1 = [10, 1, 1, 0, 2] := by decide
+example : layers (seats ex1) = [(0, 1), (1, 2), (2, 3), (3, 4)] := by decide
+example : (seats ex1).map (lower (seats ex1)) = [9, 1, 1, 0, 2] := by decide
+example : (seats ex1).map (upper (seats ex1)) = [10, 1, 1, 0, 3] := by decide
+example : payout (seats ex1) = [10, 1, 1, 0, 2] := by decide
+example : merge (seats ex1) (layers (seats ex1))
+    = [([true, false, false, false, true], 5), ([true, false, false, false, false], 7),
+       ([false, true, true, false, false], 2)] := by decide
+example : sumInt ((settle ex1).map (·.reward)) = sumInt (ex1.map (·.risked)) :=
+  C04_conservation (by decide)
+
+/-- a tie with an odd chip: 5 chips between two winners -/
+def ex2 : List Entry := [Entry.mk0 2 .betting 5, Entry.mk0 2 .betting 5, Entry.mk0 1 .folding 9]
+
+example : ValidLedger ex2 := by decide
+example : rewards ex2 = [3, 2, 0] := by decide
+example : (seats ex2).map (lower (seats ex2)) = [2, 2, 0] := by decide
+example : (seats ex2).map (upper (seats ex2)) = [3, 3, 0] := by decide
+example : (seats ex2).map (cap (seats ex2)) = [5, 5, 3] := by decide
+example : payout (seats ex2) = [3, 2, 0] := by decide
+
+/-- the hypothesis on folded seats is needed: a folded seat above the largest contesting
+    commitment leaves chips unpaid (the engine has nobody to give the top layer to) -/
+def ex3 : List Entry := [Entry.mk0 5 .folding 1, Entry.mk0 3 .betting 2]
+
+example : ¬ ValidLedger ex3 := by decide
+example : rewards ex3 = [0, 6] ∧ sumInt (ex3.map (·.risked)) = 8 := by decide
+
+end RP.C04
